@@ -2,7 +2,7 @@
    (Translation invariance: see C12_shift_* below / DESIGN.md.) *)
 From Coq Require Import List ZArith Bool.
 From JSL Require Import Base.Res SM.Types SM.Util SM.Handler SM.Step SM.Middleware SM.Inv SM.Example
-  SMP.StepInv SMP.Clock SMP.ClockStep SMP.ClockMain SM.ExampleShift SM.Events SMP.Reflect SMP.LiftProv SMP.Due.
+  SMP.StepInv SMP.Clock SMP.ClockStep SMP.ClockMain SM.ExampleShift SM.Events SMP.Reflect SMP.LiftProv SMP.Due SMP.Shift SM.ExampleDeadlock.
 Import ListNotations.
 
 (* clock_b = nothing pending lies in the past (every PROCESSING operation ends >= now, every non-idle
@@ -94,4 +94,58 @@ Theorem C12_events_fire_exactly_when_due_along_every_run :
     reach sigma i fuel x0 joker0 ta r m -> mw_step sigma i fuel r m a = MOk r' m' lg -> chain_due (r_x r) lg.
 Proof. intros sigma i fuel x0 joker0 ta r m a r' m' lg Hnn. apply (run_due_ok sigma i Hnn); auto. Qed.
 Print Assumptions C12_events_fire_exactly_when_due_along_every_run.
+
+(* ---------- translation invariance, the positive half ---------- *)
+(* For instances WITHOUT outage definitions (with them it is false: C12_shift_refuted) the whole stack commutes with shifting every time
+   stamp by K - for every oracle (stochastic times included: draws do not depend on the clock), every fuel, every state, every action.
+   sh K shifts the clock, every operation's start/end, every occupied_till, every outage record; it leaves everything else alone
+   (SMP/Shift.v: every handler, the creation of timed transitions, validity, the offers, the time machines, the event loop). *)
+Definition no_outages (i : inst) : Prop :=
+  (forall m mc, nth_error (i_machs i) m = Some mc -> mc_out mc = []) /\ (forall t ac, nth_error (i_trans i) t = Some ac -> ac_out ac = []).
+
+Theorem C12_every_transition_commutes_with_the_shift_without_outages :
+  forall K sigma i x tr, no_outages i -> apply_transition sigma i (sh K x) tr = rmap (sh K) (apply_transition sigma i x tr).
+Proof. intros K sigma i x tr [A B]. apply apply_transition_sh; auto. Qed.
+Print Assumptions C12_every_transition_commutes_with_the_shift_without_outages.
+
+Theorem C12_timed_transitions_and_offers_do_not_depend_on_the_start_time :
+  forall K i x, create_timed_transitions i (sh K x) = create_timed_transitions i x
+                /\ get_possible_transitions i (sh K x) = get_possible_transitions i x.
+Proof. intros K i x. split; [apply create_timed_transitions_sh|apply get_possible_transitions_sh]. Qed.
+Print Assumptions C12_timed_transitions_and_offers_do_not_depend_on_the_start_time.
+
+Theorem C12_step_is_translation_invariant_without_outages :
+  forall K sigma i fuel x0 trs tm, no_outages i -> step sigma i fuel (sh K x0) trs tm = shout K (step sigma i fuel x0 trs tm).
+Proof. intros K sigma i fuel x0 trs tm [A B]. apply step_sh; auto. Qed.
+Print Assumptions C12_step_is_translation_invariant_without_outages.
+
+(* whole episodes through middleware and environment flags: the same actions from the shifted start give the shifted episode - same offers,
+   same flags, same counters, every time stamp (hence the makespan) moved by K - or fail in the same way *)
+Theorem C12_episodes_are_translation_invariant_without_outages :
+  forall K sigma i fuel acts e, no_outages i ->
+    env_run sigma i fuel (shenv K e) acts = option_map (shenv K) (env_run sigma i fuel e acts)
+    /\ env_makespan (shenv K e) = option_map (fun z => (z + K)%Z) (env_makespan e).
+Proof. intros K sigma i fuel acts e [A B]. split; [apply env_run_sh; auto|apply env_makespan_sh]. Qed.
+Print Assumptions C12_episodes_are_translation_invariant_without_outages.
+
+(* a compiled initial state carries no time stamp: shifting it is moving its clock, which is what a different start_time compiles to *)
+Theorem C12_shifting_an_initial_state_moves_the_clock_only :
+  forall K x, timeless_b x = true -> sh K x = set_now x (s_now x + K)%Z.
+Proof. exact timeless_sh. Qed.
+Print Assumptions C12_shifting_an_initial_state_moves_the_clock_only.
+
+(* non-vacuity: a compiled instance without outages (3 jobs, 2 machines, 1 AGV) and its initial state meet the hypotheses, and a run of
+   four accepted offers from start 0 and from start 1000 ends with clocks that differ by exactly 1000 *)
+Example C12_translation_invariance_nontrivial :
+  no_outages dl_inst /\ timeless_b dl_init = true
+  /\ exists r0 m0 rK mK,
+       mw_reset dl_sigma dl_inst 200 dl_init 5%Z false (mkMw 5%Z 0 0 false) = MOk r0 m0 []
+       /\ mw_reset dl_sigma dl_inst 200 (sh 1000 dl_init) 5%Z false (mkMw 5%Z 0 0 false) = MOk rK mK []
+       /\ rK = shres 1000 r0 /\ r_offers r0 <> [].
+Proof.
+  split.
+  { split; intros k c H; (do 4 (destruct k as [|k]; [vm_compute in H; inversion H; reflexivity|])); vm_compute in H; destruct k; discriminate. }
+  split; [vm_compute; reflexivity|]. do 4 eexists. split; [vm_compute; reflexivity|]. split; [vm_compute; reflexivity|].
+  split; [vm_compute; reflexivity|]. vm_compute. discriminate.
+Qed.
 
